@@ -10,13 +10,7 @@ ENTRIES = ["mpi_signed", "mpi_fvs", "mpi_fvs_tbb", "mpi_iso", "mpi_iso_tbb"]
 def mpirun(binary, P, text, timeout):
     f = os.path.join(scratch(), "mpi_%d_%d.case" % (P, abs(hash(text)) % 10 ** 9))
     open(f, "w").write(text)
-    try:
-        r = subprocess.run(["mpiexec", "--allow-run-as-root", "--oversubscribe", "-n", str(P), binary, f],
-                           stdout=subprocess.PIPE, stderr=subprocess.PIPE, text=True, timeout=timeout)
-        return r.returncode, r.stdout, r.stderr
-    except subprocess.TimeoutExpired as ex:
-        sh(["pkill", "-f", os.path.basename(binary)])
-        return "hang", (ex.stdout or b"").decode() if isinstance(ex.stdout, bytes) else (ex.stdout or ""), ""
+    return run_watchdog(["mpiexec", "--allow-run-as-root", "--oversubscribe", "-n", str(P), binary, f], timeout)
 
 def render(cid, c, entry, pseed):
     return render_graph(cid, "mpi", "d", c[2], [entry, pseed], c[0], c[1])
